@@ -266,6 +266,227 @@ theorem extract_missing (r : HsRule) (args : List String) (hpos : 0 ≤ r.paramI
 
 theorem extract_nothing (r : HsRule) : extractArgs r none none = none := rfl
 
+/-! ## every history: the statistic slot's adjustment, no eviction and no cross-talk while the distinct values fit -/
+
+/-- the statistic slot's adjustment of a value's in-flight cell: up on admission, down on exit; other values untouched -/
+theorem concAdjust_cell (c : HsCtrl) (arg other : String) (up : Bool) (hm : c.rule.metric = .concurrency) :
+    (c.concAdjust (some arg) up).conc.peek arg = (c.conc.peek arg).map (fun x => if up then x + 1 else x - 1) ∧
+    (other ≠ arg → (c.concAdjust (some arg) up).conc.peek other = c.conc.peek other) := by
+  unfold HsCtrl.concAdjust
+  rw [hm]
+  simp only []
+  cases hg : (c.conc.get arg).2 with
+  | none =>
+    have e : c.conc.get arg = ((c.conc.get arg).1, none) := by rw [← hg]
+    have hp : c.conc.peek arg = none := by rw [← Lru.get_snd, hg]
+    rw [e]; simp only []
+    exact ⟨by rw [Lru.peek_get, hp]; rfl, fun _ => Lru.peek_get _ _ _⟩
+  | some x =>
+    have e : c.conc.get arg = ((c.conc.get arg).1, some x) := by rw [← hg]
+    have hp : c.conc.peek arg = some x := by rw [← Lru.get_snd, hg]
+    rw [e]; simp only []
+    refine ⟨by rw [Lru.peek_store, if_pos rfl, Lru.peek_get, hp]; rfl, fun hne => ?_⟩
+    rw [Lru.peek_store, if_neg hne, Lru.peek_get]
+
+theorem concAdjust_step (c : HsCtrl) (arg : String) (up : Bool) : LruStep c.conc (c.concAdjust (some arg) up).conc arg := by
+  unfold HsCtrl.concAdjust
+  cases c.rule.metric with
+  | qps => exact LruStep.same _ _
+  | concurrency =>
+    simp only []
+    cases hg : (c.conc.get arg).2 with
+    | none =>
+      have e : c.conc.get arg = ((c.conc.get arg).1, none) := by rw [← hg]
+      rw [e]; exact LruStep.get _ _
+    | some x =>
+      have e : c.conc.get arg = ((c.conc.get arg).1, some x) := by rw [← hg]
+      rw [e]; exact (LruStep.get _ _).store _ _
+
+theorem concAdjust_rule (c : HsCtrl) (arg : Option String) (up : Bool) : (c.concAdjust arg up).rule = c.rule := by
+  unfold HsCtrl.concAdjust
+  cases c.rule.metric with
+  | qps => rfl
+  | concurrency =>
+    cases arg with
+    | none => rfl
+    | some a =>
+      simp only []
+      generalize c.conc.get a = p
+      obtain ⟨conc', last⟩ := p
+      cases last <;> rfl
+
+theorem checkConc_step (c : HsCtrl) (arg : String) (h : c.conc.Room arg) : LruStep c.conc (c.checkConc arg).1.conc arg := by
+  unfold HsCtrl.checkConc
+  have s := LruStep.add c.conc arg 0 h
+  cases hl : (c.conc.addIfAbsent arg 0).2 with
+  | none =>
+    have e : c.conc.addIfAbsent arg 0 = ((c.conc.addIfAbsent arg 0).1, none) := by rw [← hl]
+    rw [e]; exact s
+  | some v =>
+    have e : c.conc.addIfAbsent arg 0 = ((c.conc.addIfAbsent arg 0).1, some v) := by rw [← hl]
+    rw [e]; simp only []
+    split <;> exact s
+
+theorem checkConc_rule (c : HsCtrl) (arg : String) : (c.checkConc arg).1.rule = c.rule := by
+  unfold HsCtrl.checkConc
+  generalize c.conc.addIfAbsent arg 0 = p
+  obtain ⟨conc', last⟩ := p
+  cases last <;> simp only [] <;> (repeat' split) <;> rfl
+
+/-- the in-flight counter's invariant with respect to a universe `U` of parameter values that fits it -/
+structure ConcInv (c : HsCtrl) (U : List String) : Prop where
+  cap : c.conc.cap ≠ 0
+  fit : U.length ≤ c.conc.cap
+  sub : ∀ x ∈ c.conc.keys, x ∈ U
+  nd : c.conc.keys.Nodup
+
+theorem ConcInv.room {c : HsCtrl} {U : List String} (h : ConcInv c U) (arg : String) (ha : arg ∈ U) : c.conc.Room arg :=
+  Lru.room_of_universe c.conc U arg h.cap h.fit h.nd h.sub ha
+
+theorem ConcInv.step {c c' : HsCtrl} {U : List String} {arg : String} (h : ConcInv c U) (ha : arg ∈ U) (s : LruStep c.conc c'.conc arg) :
+    ConcInv c' U := by
+  obtain ⟨t1, t2, t3⟩ := s
+  refine ⟨by rw [t3]; exact h.cap, by rw [t3]; exact h.fit, ?_, t2 h.nd⟩
+  intro x hx
+  rcases t1 x hx with rfl | hx'
+  · exact ha
+  · exact h.sub x hx'
+
+/-- one request through the controller as the slots drive it: the rule check, then - if admitted - the statistic slot's increment;
+an exit is the statistic slot's decrement -/
+def HsCtrl.concOp (c : HsCtrl) (v : String) : IOp → HsCtrl × Bool
+  | .enter _ =>
+    let (c1, r) := c.checkConc v
+    if r = .pass then (c1.concAdjust (some v) true, true) else (c1, false)
+  | .exit => (c.concAdjust (some v) false, true)
+
+def HsCtrl.runConc (c : HsCtrl) : List (String × IOp) → HsCtrl × List Bool
+  | [] => (c, [])
+  | (v, op) :: rest =>
+    let (c1, ok) := c.concOp v op
+    let (c2, oks) := c1.runConc rest
+    (c2, ok :: oks)
+
+/-- the same sequence seen by independent per-value cells (`hcStep`) -/
+def cellsRun (rule : HsRule) (cells : String → Option Nat) : List (String × IOp) → (String → Option Nat) × List Bool
+  | [] => (cells, [])
+  | (v, op) :: rest =>
+    let (s', ok) := hcStep (rule.thrFor v) (cells v) op
+    let (cells2, oks) := cellsRun rule (fun x => if x = v then s' else cells x) rest
+    (cells2, ok :: oks)
+
+/-- one operation of the controller is one `hcStep` on the value's own cell and touches no other cell -/
+theorem concOp_cell (c : HsCtrl) (U : List String) (v : String) (op : IOp) (h : ConcInv c U) (hv : v ∈ U)
+    (hm : c.rule.metric = .concurrency) :
+    (c.concOp v op).2 = (hcStep (c.rule.thrFor v) (c.conc.peek v) op).2 ∧
+    (c.concOp v op).1.conc.peek v = (hcStep (c.rule.thrFor v) (c.conc.peek v) op).1 ∧
+    (∀ x, x ≠ v → (c.concOp v op).1.conc.peek x = c.conc.peek x) ∧
+    ConcInv (c.concOp v op).1 U ∧ (c.concOp v op).1.rule = c.rule := by
+  have hroom := h.room v hv
+  cases op with
+  | exit =>
+    simp only [HsCtrl.concOp, hcStep]
+    obtain ⟨a1, a2⟩ := concAdjust_cell c v v false hm
+    refine ⟨by first | rfl | trivial, by rw [a1]; simp, fun x hx => (concAdjust_cell c v x false hm).2 hx, h.step hv (concAdjust_step c v false), concAdjust_rule _ _ _⟩
+  | enter b =>
+    obtain ⟨k1, k2, k3, _⟩ := checkConc_cell c v v hroom
+    have hrule1 := checkConc_rule c v
+    have hinv1 : ConcInv (c.checkConc v).1 U := h.step hv (checkConc_step c v hroom)
+    simp only [HsCtrl.concOp, hcStep]
+    by_cases hp : (c.checkConc v).2 = .pass
+    · have hok : (hcCheck (c.rule.thrFor v) (c.conc.peek v)).2 = true := k1.mp hp
+      have hm1 : (c.checkConc v).1.rule.metric = .concurrency := by rw [hrule1]; exact hm
+      obtain ⟨a1, _⟩ := concAdjust_cell (c.checkConc v).1 v v true hm1
+      simp only [hp, if_true, hok]
+      refine ⟨by first | rfl | trivial, by rw [a1, k2]; simp, fun x hx => ?_, hinv1.step hv (concAdjust_step _ v true), by rw [concAdjust_rule, hrule1]⟩
+      rw [(concAdjust_cell (c.checkConc v).1 v x true hm1).2 hx]
+      exact (checkConc_cell c v x hroom).2.2.1 hx
+    · have hok : (hcCheck (c.rule.thrFor v) (c.conc.peek v)).2 = false := by
+        cases hb : (hcCheck (c.rule.thrFor v) (c.conc.peek v)).2 with
+        | false => rfl
+        | true => exact absurd (k1.mpr hb) hp
+      simp only [hp, if_false, hok]
+      exact ⟨by first | rfl | trivial, k2, fun x hx => (checkConc_cell c v x hroom).2.2.1 hx, hinv1, hrule1⟩
+
+/-- **No cross-talk, every history (hotspot concurrency)**: for every sequence of requests and exits, of any length, over a set
+of distinct values no larger than the rule's capacity, the controller admits exactly what independent per-value in-flight cells
+(`hcStep`: admitted iff never seen or in-flight + 1 ≤ threshold of that value) admit, and holds exactly their counts; nothing is
+evicted. -/
+theorem conc_run_refines_cells (c : HsCtrl) (U : List String) (ops : List (String × IOp)) (h : ConcInv c U)
+    (hm : c.rule.metric = .concurrency) (hU : ∀ o ∈ ops, o.1 ∈ U) :
+    (c.runConc ops).2 = (cellsRun c.rule c.conc.peek ops).2 ∧
+    ConcInv (c.runConc ops).1 U ∧
+    (∀ v, (c.runConc ops).1.conc.peek v = (cellsRun c.rule c.conc.peek ops).1 v) := by
+  induction ops generalizing c with
+  | nil => exact ⟨rfl, h, fun _ => rfl⟩
+  | cons o rest ih =>
+    obtain ⟨v, op⟩ := o
+    have hv : v ∈ U := hU (v, op) (by simp)
+    obtain ⟨o1, o2, o3, o4, o5⟩ := concOp_cell c U v op h hv hm
+    have hcells : (c.concOp v op).1.conc.peek = (fun x => if x = v then (hcStep (c.rule.thrFor v) (c.conc.peek v) op).1 else c.conc.peek x) := by
+      funext x
+      by_cases hx : x = v
+      · subst hx; simp only [if_true]; exact o2
+      · simp only [hx, if_false]; exact o3 x hx
+    obtain ⟨i1, i2, i3⟩ := ih (c.concOp v op).1 o4 (by rw [o5]; exact hm) (fun r hr => hU r (by simp [hr]))
+    rw [o5, hcells] at i1 i3
+    simp only [HsCtrl.runConc, cellsRun]
+    refine ⟨?_, i2, i3⟩
+    rw [i1, o1]
+
+/-- the per-value cap, forwards: one `hcStep` keeps a cell within its threshold -/
+theorem hcStep_le (T : Nat) (hT : 1 ≤ T) (cell : Option Nat) (op : IOp) (h : ∀ x, cell = some x → x ≤ T) :
+    ∀ y, (hcStep T cell op).1 = some y → y ≤ T := by
+  intro y hy
+  cases op with
+  | exit =>
+    simp only [hcStep] at hy
+    cases cell with
+    | none => cases hy
+    | some x => simp at hy; have := h x rfl; omega
+  | enter b =>
+    simp only [hcStep, hcCheck] at hy
+    cases cell with
+    | none => simp at hy; omega
+    | some x =>
+      have := h x rfl
+      by_cases hle : x + 1 ≤ T
+      · simp [hle] at hy; omega
+      · simp [hle] at hy; omega
+
+theorem cellsRun_le (rule : HsRule) (cells : String → Option Nat) (ops : List (String × IOp)) (hT : ∀ v, 1 ≤ rule.thrFor v)
+    (h0 : ∀ v x, cells v = some x → x ≤ rule.thrFor v) :
+    ∀ v x, (cellsRun rule cells ops).1 v = some x → x ≤ rule.thrFor v := by
+  induction ops generalizing cells with
+  | nil => intro v x hx; exact h0 v x hx
+  | cons o rest ih =>
+    obtain ⟨w, op⟩ := o
+    intro v x hx
+    simp only [cellsRun] at hx
+    refine ih (fun y => if y = w then (hcStep (rule.thrFor w) (cells w) op).1 else cells y) ?_ v x hx
+    intro v' x' hx'
+    by_cases hv : v' = w
+    · subst hv
+      simp only [if_true] at hx'
+      exact hcStep_le _ (hT v') _ op (h0 v') x' hx'
+    · simp only [hv, if_false] at hx'
+      exact h0 v' x' hx'
+
+/-- **Cap per value through the controller, every history**: with every threshold (rule or override) at least 1, after any sequence
+of requests and exits over at most `capacity` distinct values no value's in-flight count exceeds its own threshold -/
+theorem conc_cap_every_value (c : HsCtrl) (U : List String) (ops : List (String × IOp)) (h : ConcInv c U)
+    (hm : c.rule.metric = .concurrency) (hU : ∀ o ∈ ops, o.1 ∈ U) (hT : ∀ v, 1 ≤ c.rule.thrFor v)
+    (h0 : ∀ v x, c.conc.peek v = some x → x ≤ c.rule.thrFor v) :
+    ∀ v x, (c.runConc ops).1.conc.peek v = some x → x ≤ c.rule.thrFor v := by
+  obtain ⟨_, _, hcells⟩ := conc_run_refines_cells c U ops h hm hU
+  intro v x hx
+  rw [hcells v] at hx
+  exact cellsRun_le c.rule c.conc.peek ops hT h0 v x hx
+
+/-- non-vacuity: a fresh concurrency controller (threshold 2, capacity 2) meets the premises for the values a, b -/
+example : ConcInv (HsCtrl.new { id := "h", metric := .concurrency, strategy := .reject, thr := 2, maxCap := 2 }) ["a", "b"] :=
+  ⟨by decide, by decide, by simp [HsCtrl.new, Lru.keys], by simp [HsCtrl.new, Lru.keys]⟩
+
 /-! ## non-vacuity -/
 example : (IsoSys.run [⟨"i", 2⟩] [.enter 1, .exit, .enter 1, .enter 1, .enter 1]).conc = 2 := by decide
 example : isoCheck [⟨"i", 2⟩, ⟨"j", 1⟩] { conc := 1 } 1 = some ("j", 1) := by decide
